@@ -43,6 +43,9 @@ theories/V1/Matcher1Proof.vos theories/V1/Matcher1Proof.vok theories/V1/Matcher1
 theories/V1/Matcher1Straddle.vo theories/V1/Matcher1Straddle.glob theories/V1/Matcher1Straddle.v.beautified theories/V1/Matcher1Straddle.required_vo: theories/V1/Matcher1Straddle.v theories/Base/Utf8.vo theories/V1/Tok1.vo theories/V1/Matcher1.vo theories/V1/Matcher1Proof.vo
 theories/V1/Matcher1Straddle.vio: theories/V1/Matcher1Straddle.v theories/Base/Utf8.vio theories/V1/Tok1.vio theories/V1/Matcher1.vio theories/V1/Matcher1Proof.vio
 theories/V1/Matcher1Straddle.vos theories/V1/Matcher1Straddle.vok theories/V1/Matcher1Straddle.required_vos: theories/V1/Matcher1Straddle.v theories/Base/Utf8.vos theories/V1/Tok1.vos theories/V1/Matcher1.vos theories/V1/Matcher1Proof.vos
+theories/V1/Matcher1Inside.vo theories/V1/Matcher1Inside.glob theories/V1/Matcher1Inside.v.beautified theories/V1/Matcher1Inside.required_vo: theories/V1/Matcher1Inside.v theories/Base/Utf8.vo theories/V1/Tok1.vo theories/V1/Matcher1.vo theories/V1/Matcher1Proof.vo theories/V1/Matcher1Straddle.vo
+theories/V1/Matcher1Inside.vio: theories/V1/Matcher1Inside.v theories/Base/Utf8.vio theories/V1/Tok1.vio theories/V1/Matcher1.vio theories/V1/Matcher1Proof.vio theories/V1/Matcher1Straddle.vio
+theories/V1/Matcher1Inside.vos theories/V1/Matcher1Inside.vok theories/V1/Matcher1Inside.required_vos: theories/V1/Matcher1Inside.v theories/Base/Utf8.vos theories/V1/Tok1.vos theories/V1/Matcher1.vos theories/V1/Matcher1Proof.vos theories/V1/Matcher1Straddle.vos
 theories/V1/Join1.vo theories/V1/Join1.glob theories/V1/Join1.v.beautified theories/V1/Join1.required_vo: theories/V1/Join1.v theories/V1/Tok1.vo
 theories/V1/Join1.vio: theories/V1/Join1.v theories/V1/Tok1.vio
 theories/V1/Join1.vos theories/V1/Join1.vok theories/V1/Join1.required_vos: theories/V1/Join1.v theories/V1/Tok1.vos
@@ -127,6 +130,9 @@ theories/V2/FuseShift.vos theories/V2/FuseShift.vok theories/V2/FuseShift.requir
 theories/V2/WindowSpec.vo theories/V2/WindowSpec.glob theories/V2/WindowSpec.v.beautified theories/V2/WindowSpec.required_vo: theories/V2/WindowSpec.v theories/Base/Float64.vo theories/V2/SSet.vo
 theories/V2/WindowSpec.vio: theories/V2/WindowSpec.v theories/Base/Float64.vio theories/V2/SSet.vio
 theories/V2/WindowSpec.vos theories/V2/WindowSpec.vok theories/V2/WindowSpec.required_vos: theories/V2/WindowSpec.v theories/Base/Float64.vos theories/V2/SSet.vos
+theories/V2/WindowShift.vo theories/V2/WindowShift.glob theories/V2/WindowShift.v.beautified theories/V2/WindowShift.required_vo: theories/V2/WindowShift.v theories/Base/Float64.vo theories/Base/Sort.vo theories/V2/SSet.vo theories/V2/Shift.vo theories/V2/WindowSpec.vo theories/V2/FuseShift.vo theories/V2/MatchWF.vo
+theories/V2/WindowShift.vio: theories/V2/WindowShift.v theories/Base/Float64.vio theories/Base/Sort.vio theories/V2/SSet.vio theories/V2/Shift.vio theories/V2/WindowSpec.vio theories/V2/FuseShift.vio theories/V2/MatchWF.vio
+theories/V2/WindowShift.vos theories/V2/WindowShift.vok theories/V2/WindowShift.required_vos: theories/V2/WindowShift.v theories/Base/Float64.vos theories/Base/Sort.vos theories/V2/SSet.vos theories/V2/Shift.vos theories/V2/WindowSpec.vos theories/V2/FuseShift.vos theories/V2/MatchWF.vos
 theories/V2/PlantedText.vo theories/V2/PlantedText.glob theories/V2/PlantedText.v.beautified theories/V2/PlantedText.required_vo: theories/V2/PlantedText.v theories/Base/Utf8.vo theories/V2/Tok.vo theories/V2/TokSim.vo theories/V2/TokInv.vo theories/Base/Float64.vo theories/Base/Sort.vo theories/V2/SSet.vo theories/V2/Match.vo theories/V2/Planted.vo theories/V2/TokWF.vo
 theories/V2/PlantedText.vio: theories/V2/PlantedText.v theories/Base/Utf8.vio theories/V2/Tok.vio theories/V2/TokSim.vio theories/V2/TokInv.vio theories/Base/Float64.vio theories/Base/Sort.vio theories/V2/SSet.vio theories/V2/Match.vio theories/V2/Planted.vio theories/V2/TokWF.vio
 theories/V2/PlantedText.vos theories/V2/PlantedText.vok theories/V2/PlantedText.required_vos: theories/V2/PlantedText.v theories/Base/Utf8.vos theories/V2/Tok.vos theories/V2/TokSim.vos theories/V2/TokInv.vos theories/Base/Float64.vos theories/Base/Sort.vos theories/V2/SSet.vos theories/V2/Match.vos theories/V2/Planted.vos theories/V2/TokWF.vos
@@ -163,18 +169,18 @@ theories/Props/C10.vos theories/Props/C10.vok theories/Props/C10.required_vos: t
 theories/Props/C01.vo theories/Props/C01.glob theories/Props/C01.v.beautified theories/Props/C01.required_vo: theories/Props/C01.v theories/Base/Utf8.vo theories/Base/Float64.vo theories/Base/Sort.vo theories/Base/SortProof.vo theories/Base/Float64Proof.vo theories/V2/Tok.vo theories/V2/SSet.vo theories/V2/Match.vo theories/V2/ScoringProof.vo theories/V2/MatchND.vo theories/V2/MatchWF.vo theories/V2/Planted.vo theories/V2/TokSim.vo theories/V2/TokInv.vo theories/V2/PlantedText.vo theories/V2/FilterProof.vo
 theories/Props/C01.vio: theories/Props/C01.v theories/Base/Utf8.vio theories/Base/Float64.vio theories/Base/Sort.vio theories/Base/SortProof.vio theories/Base/Float64Proof.vio theories/V2/Tok.vio theories/V2/SSet.vio theories/V2/Match.vio theories/V2/ScoringProof.vio theories/V2/MatchND.vio theories/V2/MatchWF.vio theories/V2/Planted.vio theories/V2/TokSim.vio theories/V2/TokInv.vio theories/V2/PlantedText.vio theories/V2/FilterProof.vio
 theories/Props/C01.vos theories/Props/C01.vok theories/Props/C01.required_vos: theories/Props/C01.v theories/Base/Utf8.vos theories/Base/Float64.vos theories/Base/Sort.vos theories/Base/SortProof.vos theories/Base/Float64Proof.vos theories/V2/Tok.vos theories/V2/SSet.vos theories/V2/Match.vos theories/V2/ScoringProof.vos theories/V2/MatchND.vos theories/V2/MatchWF.vos theories/V2/Planted.vos theories/V2/TokSim.vos theories/V2/TokInv.vos theories/V2/PlantedText.vos theories/V2/FilterProof.vos
-theories/Props/C07.vo theories/Props/C07.glob theories/Props/C07.v.beautified theories/Props/C07.required_vo: theories/Props/C07.v theories/Base/Float64.vo theories/V2/SSet.vo theories/V2/Match.vo theories/V2/Planted.vo theories/V2/MatchWF.vo theories/V2/Shift.vo theories/V2/FuseShift.vo theories/V2/WindowSpec.vo
-theories/Props/C07.vio: theories/Props/C07.v theories/Base/Float64.vio theories/V2/SSet.vio theories/V2/Match.vio theories/V2/Planted.vio theories/V2/MatchWF.vio theories/V2/Shift.vio theories/V2/FuseShift.vio theories/V2/WindowSpec.vio
-theories/Props/C07.vos theories/Props/C07.vok theories/Props/C07.required_vos: theories/Props/C07.v theories/Base/Float64.vos theories/V2/SSet.vos theories/V2/Match.vos theories/V2/Planted.vos theories/V2/MatchWF.vos theories/V2/Shift.vos theories/V2/FuseShift.vos theories/V2/WindowSpec.vos
+theories/Props/C07.vo theories/Props/C07.glob theories/Props/C07.v.beautified theories/Props/C07.required_vo: theories/Props/C07.v theories/Base/Float64.vo theories/V2/SSet.vo theories/V2/Match.vo theories/V2/Planted.vo theories/V2/MatchWF.vo theories/V2/Shift.vo theories/V2/FuseShift.vo theories/V2/WindowSpec.vo theories/V2/WindowShift.vo
+theories/Props/C07.vio: theories/Props/C07.v theories/Base/Float64.vio theories/V2/SSet.vio theories/V2/Match.vio theories/V2/Planted.vio theories/V2/MatchWF.vio theories/V2/Shift.vio theories/V2/FuseShift.vio theories/V2/WindowSpec.vio theories/V2/WindowShift.vio
+theories/Props/C07.vos theories/Props/C07.vok theories/Props/C07.required_vos: theories/Props/C07.v theories/Base/Float64.vos theories/V2/SSet.vos theories/V2/Match.vos theories/V2/Planted.vos theories/V2/MatchWF.vos theories/V2/Shift.vos theories/V2/FuseShift.vos theories/V2/WindowSpec.vos theories/V2/WindowShift.vos
 theories/Props/C11.vo theories/Props/C11.glob theories/Props/C11.v.beautified theories/Props/C11.required_vo: theories/Props/C11.v theories/Base/Utf8.vo theories/V2/Tok.vo theories/V2/TokTables.vo theories/V2/TokInv.vo theories/V2/Normalize.vo theories/V2/NormProof.vo theories/V2/NormTables.vo
 theories/Props/C11.vio: theories/Props/C11.v theories/Base/Utf8.vio theories/V2/Tok.vio theories/V2/TokTables.vio theories/V2/TokInv.vio theories/V2/Normalize.vio theories/V2/NormProof.vio theories/V2/NormTables.vio
 theories/Props/C11.vos theories/Props/C11.vok theories/Props/C11.required_vos: theories/Props/C11.v theories/Base/Utf8.vos theories/V2/Tok.vos theories/V2/TokTables.vos theories/V2/TokInv.vos theories/V2/Normalize.vos theories/V2/NormProof.vos theories/V2/NormTables.vos
-theories/Props/C13.vo theories/Props/C13.glob theories/Props/C13.v.beautified theories/Props/C13.required_vo: theories/Props/C13.v theories/Base/Utf8.vo theories/V1/Tok1.vo theories/V1/Matcher1.vo theories/V1/Tok1Proof.vo theories/V1/Matcher1Proof.vo theories/V1/Matcher1Straddle.vo
-theories/Props/C13.vio: theories/Props/C13.v theories/Base/Utf8.vio theories/V1/Tok1.vio theories/V1/Matcher1.vio theories/V1/Tok1Proof.vio theories/V1/Matcher1Proof.vio theories/V1/Matcher1Straddle.vio
-theories/Props/C13.vos theories/Props/C13.vok theories/Props/C13.required_vos: theories/Props/C13.v theories/Base/Utf8.vos theories/V1/Tok1.vos theories/V1/Matcher1.vos theories/V1/Tok1Proof.vos theories/V1/Matcher1Proof.vos theories/V1/Matcher1Straddle.vos
-theories/Props/C17.vo theories/Props/C17.glob theories/Props/C17.v.beautified theories/Props/C17.required_vo: theories/Props/C17.v theories/Base/Utf8.vo theories/Base/Sort.vo theories/V1/Tok1.vo theories/V1/Matcher1.vo theories/V1/Tok1Proof.vo theories/V1/Matcher1Proof.vo theories/V1/Matcher1Straddle.vo theories/V1/Join1.vo theories/V1/Join1Proof.vo
-theories/Props/C17.vio: theories/Props/C17.v theories/Base/Utf8.vio theories/Base/Sort.vio theories/V1/Tok1.vio theories/V1/Matcher1.vio theories/V1/Tok1Proof.vio theories/V1/Matcher1Proof.vio theories/V1/Matcher1Straddle.vio theories/V1/Join1.vio theories/V1/Join1Proof.vio
-theories/Props/C17.vos theories/Props/C17.vok theories/Props/C17.required_vos: theories/Props/C17.v theories/Base/Utf8.vos theories/Base/Sort.vos theories/V1/Tok1.vos theories/V1/Matcher1.vos theories/V1/Tok1Proof.vos theories/V1/Matcher1Proof.vos theories/V1/Matcher1Straddle.vos theories/V1/Join1.vos theories/V1/Join1Proof.vos
+theories/Props/C13.vo theories/Props/C13.glob theories/Props/C13.v.beautified theories/Props/C13.required_vo: theories/Props/C13.v theories/Base/Utf8.vo theories/Base/Sort.vo theories/V1/Tok1.vo theories/V1/Matcher1.vo theories/V1/Tok1Proof.vo theories/V1/Matcher1Proof.vo theories/V1/Matcher1Straddle.vo theories/V1/Matcher1Inside.vo theories/V1/Join1.vo theories/V1/Join1Proof.vo
+theories/Props/C13.vio: theories/Props/C13.v theories/Base/Utf8.vio theories/Base/Sort.vio theories/V1/Tok1.vio theories/V1/Matcher1.vio theories/V1/Tok1Proof.vio theories/V1/Matcher1Proof.vio theories/V1/Matcher1Straddle.vio theories/V1/Matcher1Inside.vio theories/V1/Join1.vio theories/V1/Join1Proof.vio
+theories/Props/C13.vos theories/Props/C13.vok theories/Props/C13.required_vos: theories/Props/C13.v theories/Base/Utf8.vos theories/Base/Sort.vos theories/V1/Tok1.vos theories/V1/Matcher1.vos theories/V1/Tok1Proof.vos theories/V1/Matcher1Proof.vos theories/V1/Matcher1Straddle.vos theories/V1/Matcher1Inside.vos theories/V1/Join1.vos theories/V1/Join1Proof.vos
+theories/Props/C17.vo theories/Props/C17.glob theories/Props/C17.v.beautified theories/Props/C17.required_vo: theories/Props/C17.v theories/Base/Utf8.vo theories/Base/Sort.vo theories/V1/Tok1.vo theories/V1/Matcher1.vo theories/V1/Tok1Proof.vo theories/V1/Matcher1Proof.vo theories/V1/Matcher1Straddle.vo theories/V1/Matcher1Inside.vo theories/V1/Join1.vo theories/V1/Join1Proof.vo
+theories/Props/C17.vio: theories/Props/C17.v theories/Base/Utf8.vio theories/Base/Sort.vio theories/V1/Tok1.vio theories/V1/Matcher1.vio theories/V1/Tok1Proof.vio theories/V1/Matcher1Proof.vio theories/V1/Matcher1Straddle.vio theories/V1/Matcher1Inside.vio theories/V1/Join1.vio theories/V1/Join1Proof.vio
+theories/Props/C17.vos theories/Props/C17.vok theories/Props/C17.required_vos: theories/Props/C17.v theories/Base/Utf8.vos theories/Base/Sort.vos theories/V1/Tok1.vos theories/V1/Matcher1.vos theories/V1/Tok1Proof.vos theories/V1/Matcher1Proof.vos theories/V1/Matcher1Straddle.vos theories/V1/Matcher1Inside.vos theories/V1/Join1.vos theories/V1/Join1Proof.vos
 theories/Props/C12.vo theories/Props/C12.glob theories/Props/C12.v.beautified theories/Props/C12.required_vo: theories/Props/C12.v theories/V2/Load.vo
 theories/Props/C12.vio: theories/Props/C12.v theories/V2/Load.vio
 theories/Props/C12.vos theories/Props/C12.vok theories/Props/C12.required_vos: theories/Props/C12.v theories/V2/Load.vos
